@@ -35,6 +35,7 @@ def harness_scen(sc, kind=None, share=None):
     obj = {"kind": kind or sc["kind"]}
     if share:
         obj["share"] = share             # "ref": the threads share ONE handle by reference instead of owning clones of it
+        obj["creator"] = sc["threads"][0]   # ... and the first scripted thread is the thread that created the metric
     if "scale" in sc:
         obj["scale"] = sc["scale"]       # float metrics: amounts x scale (a power of two), observed values / scale
     if "base" in sc:
@@ -105,7 +106,7 @@ def run_scenario(ctx, pid, exe, sc, label, stats, samples, oracle_mod, oracle_in
     if pb and pb[1]:
         for kind in kinds:
             # the systematic search shares one handle by reference between the threads (the other schedules use clones)
-            share = "ref" if kind in ("counter", "intcounter", "gauge", "intgauge") else None
+            share = "ref" if kind in ("counter", "intcounter", "gauge", "intgauge") else "clone"      # vector children: clones, created on the first thread
             res, info = pb_explore(ctx, exe, harness_scen(sc, kind, share), label + kind, pb[0], pb[1], nproc=nproc)
             for x in res:
                 x["kind"] = kind
